@@ -389,6 +389,9 @@ class SStrPlugin(object):
 
     def getitem(self, it, obj, key):
         if isinstance(obj, Shape):
+            r = self._getitem_fixed(obj, key)
+            if r is not None:
+                return r
             if isinstance(key, slice) and key.step is None and key.stop is None and isinstance(key.start, int) and key.start >= 0:
                 n = key.start
                 parts = list(obj.parts)
@@ -442,6 +445,54 @@ class SStrPlugin(object):
         if p:
             return p(it, obj, key)
         raise OutOfSubset('subscript of %r' % (obj,))
+
+    @staticmethod
+    def _getitem_fixed(obj, key):
+        """s[i] / s[a:b] / s[a:] when every part before the cut has a known length and no field is cut"""
+        def plen(p):
+            return len(p.text) if isinstance(p, Lit) else p.fixed_len
+        if isinstance(key, int) and not isinstance(key, bool) and key >= 0:
+            a, b, idx = key, key + 1, True
+        elif isinstance(key, slice) and key.step is None and (key.start is None or (isinstance(key.start, int) and key.start >= 0)) \
+                and (key.stop is None or (isinstance(key.stop, int) and key.stop >= 0)):
+            a, b, idx = key.start or 0, key.stop, False
+        else:
+            return None
+        out = []
+        pos = 0
+        for p in obj.parts:
+            if b is not None and pos >= b:
+                break
+            n = plen(p)
+            if n is None:
+                if pos >= a and b is None:
+                    out.append(p)       # the open tail: everything from here on
+                    pos = None
+                    continue
+                return None
+            if pos is None:
+                out.append(p)
+                continue
+            lo, hi = max(a, pos), (pos + n if b is None else min(b, pos + n))
+            if lo < hi:
+                if lo == pos and hi == pos + n:
+                    out.append(p)
+                elif isinstance(p, Lit):
+                    out.append(Lit(p.text[lo - pos:hi - pos]))
+                else:
+                    return None
+            pos += n
+        if pos is not None and ((b is not None and pos < b) or pos < a):
+            return None         # may run past the end of the known part: leave to the general rules
+        if idx:
+            if len(out) != 1:
+                return None
+            if isinstance(out[0], Lit):
+                return out[0].text
+            return Shape(out)
+        r = Shape(out)
+        c = r.concrete()
+        return c if c is not None else r
 
     def slice_by_language(self, it, sh, a, b, index=False):
         """the (short) substring s[a:b] as a 1-char symbolic result: returns a CharChoice the comparisons can decide"""
